@@ -49,6 +49,7 @@ type Engine struct {
 	allMapOrders, ignoreGo, symFloatFree                        bool
 	solverKind, logic                                           string
 	forbidEvents                                                []string
+	guards                                                      []guard
 	queryTimeoutMs                                              int
 	params                                                      map[string]int
 	collisionFree                                               map[string]bool // UF names with injectivity axiom
